@@ -1994,8 +1994,14 @@ connection_shrink_read_buffer (struct MHD_Connection *connection)
     c->read_buffer = NULL;
     c->read_buffer_size = 0;
   }
-  else
+  else if (c->read_buffer_size != c->read_buffer_offset)
   {
+    /* (If the buffer has exactly the needed size already there is nothing
+       to do, and there must be nothing done: after an interim (102) reply
+       of the same request the buffer was shrunk before and is not the last
+       block of the pool any more (the write buffer follows it), so
+       MHD_pool_reallocate() would try to move it, fail for lack of space
+       and the pipelined data would be lost.) */
     mhd_assert (MHD_pool_is_resizable_inplace (c->pool, c->read_buffer, \
                                                c->read_buffer_size));
     new_buf = MHD_pool_reallocate (c->pool, c->read_buffer, c->read_buffer_size,
